@@ -160,7 +160,8 @@ def run_world(scn, shutdown_at, seed):
             def __init__(self):
                 super().__init__()
                 from .c08 import OrderedSet
-                self._observations = OrderedSet()
+                if isinstance(self._observations, set):
+                    self._observations = OrderedSet()
                 self.state = 0
 
             async def render_get(self, request):
